@@ -7,6 +7,7 @@ CONSTANTS
   ManualKs = TRUE
   ManualDb = FALSE
   PersistShortcut = FALSE
+  SyncBatchSyncs = TRUE
   MaxFaults = 0
   EnPersistCall = TRUE
   FixPoisonAppend = TRUE
